@@ -218,6 +218,58 @@ theorem parse_isotime_scan_errors_ValueError_gen (s : Bytes) (e : PyErr)
   | error e' => rw [hp] at h; cases h; exact onlyVE_parseIsotime s _ hp
   | ok c => rw [hp] at h; cases h
 
+/-- COMPLETE soundness of the translated body of `parse_isodate` (the value is the date's ordinal) -/
+theorem parse_isodate_sound_gen (s : Bytes) (o : Int) (h : Gen.parseIsodateEntry s = .ok o) :
+    ∃ df x, s = IsoSpec.renderDate df x ∧ IsoSpec.dateWF true df x = true ∧
+      1 ≤ IsoSpec.dateOrdinal df x ∧ IsoSpec.dateOrdinal df x ≤ Cal.maxOrdinal ∧ o = IsoSpec.dateOrdinal df x := by
+  rw [IsoGen.parseIsodateEntry_eq] at h
+  cases hp : parseIsodateEntry s with
+  | error e => rw [hp] at h; cases h
+  | ok ymd =>
+    obtain ⟨y, m, d⟩ := ymd
+    rw [hp] at h; simp only [Except.map, Except.ok.injEq] at h
+    obtain ⟨df, x, es, hwf, h1, h2, he⟩ := parseIsodateEntry_sound s y m d hp
+    refine ⟨df, x, es, hwf, h1, h2, ?_⟩
+    have := (Cal.toOrdinal_fromOrdinal _ h1).1
+    rw [← he] at this; rw [← h]; exact this
+
+theorem parse_isodate_errors_ValueError_gen (s : Bytes) (e : PyErr)
+    (h : Gen.parseIsodateEntry s = .error e) : e = .ValueError := by
+  rw [IsoGen.parseIsodateEntry_eq] at h
+  cases hp : parseIsodateEntry s with
+  | error e' => rw [hp] at h; cases h; exact onlyVE_parseIsodateEntry s _ hp
+  | ok c => rw [hp] at h; cases h
+
+/-- COMPLETE soundness of the translated body of `parse_isotime` (hour 24 is returned as 0) -/
+theorem parse_isotime_sound_gen (s : Bytes) (comps : List BytesPy.Comp) (h : Gen.parseIsotimeEntry s = .ok comps) :
+    ∃ (tf : IsoSpec.TimeForm) (o : IsoSpec.OffForm) (x : IsoSpec.Fields), tf ≠ .none ∧
+      IsoSpec.timeWF tf x = true ∧ IsoSpec.offWF o x = true ∧
+      s = IsoSpec.renderTime tf x ++ IsoSpec.renderOff o x ∧
+      comps = IsoGen.compsOf
+        { h := if (IsoSpec.timeShown tf x).1 = 24 then 0 else ((IsoSpec.timeShown tf x).1 : Int),
+          m := (IsoSpec.timeShown tf x).2.1, s := (IsoSpec.timeShown tf x).2.2.1,
+          us := (IsoSpec.timeShown tf x).2.2.2, tz := IsoSpec.offDenote o x } := by
+  rw [IsoGen.parseIsotimeEntry_eq] at h
+  cases hp : parseIsotimeEntry s with
+  | error e => rw [hp] at h; cases h
+  | ok c =>
+    rw [hp] at h; simp only [Except.map, Except.ok.injEq] at h
+    obtain ⟨tf, o, x, h1, h2, h3, h4, h5⟩ := parseIsotimeEntry_sound s c hp
+    exact ⟨tf, o, x, h1, h2, h3, h4, by rw [← h, h5]⟩
+
+theorem parse_isotime_errors_ValueError_gen (s : Bytes) (e : PyErr)
+    (h : Gen.parseIsotimeEntry s = .error e) : e = .ValueError := by
+  rw [IsoGen.parseIsotimeEntry_eq] at h
+  cases hp : parseIsotimeEntry s with
+  | error e' => rw [hp] at h; cases h; exact onlyVE_parseIsotimeEntry s _ hp
+  | ok c => rw [hp] at h; cases h
+
+/-- the translated body of `parse_tzstr` is the translated `_parse_tzstr` (sound and ValueError-only, above) -/
+theorem parse_tzstr_entry_sound_gen (s : Bytes) (z : Bool) (v : Off) (h : Gen.parseTzstrEntry s z = .ok v) :
+    ∃ o x, o ≠ IsoSpec.OffForm.naive ∧ IsoSpec.offWF o x = true ∧ s = IsoSpec.renderOff o x ∧
+      v = offValue z o x := by
+  rw [IsoGen.parseTzstrEntry_eq] at h; exact parseTzstr_sound s z v h
+
 /-! non-vacuity -/
 example : isoparse none [50,48,49,52,45,48,49,45,48,49,84,50,53] = .error .ValueError := by decide +kernel
 example : parseTzstr [43,48,49,58,51,48] true = .ok (.fixed 5400) := by decide +kernel
